@@ -183,7 +183,8 @@ class Axioms:
         if tt["k"] == "float":
             half = Fraction(1, 2)
             g = self.unit_generic(tt)
-            return self.draw(ip, inst, bi, "StandardUniform[0,1)", g, [("0", Fl.point(0)), ("1/2", Fl.point(half))])
+            top = 1 - Fraction(2) ** -(24 if tt.get("bits") == 32 else 53)
+            return self.draw(ip, inst, bi, "StandardUniform[0,1)", g, [("0", Fl.point(0)), ("1/2", Fl.point(half)), ("max", Fl.point(top))])
         if tt["k"] == "int":
             full = In.of_type(tt["bits"], tt["signed"])
             return self.draw(ip, inst, bi, "word", full, [("min", In(full.lo, full.lo, full.bits, full.signed)), ("max", In(full.hi, full.hi, full.bits, full.signed))])
